@@ -1,1 +1,9 @@
-#[allow(unused_imports)] use super::*;
+#[allow(unused_imports)]
+use super::*;
+
+/// Read-only view of a claim table: claims in table order, cache entries (unordered).
+pub fn dump<TS: TimeSource>(t: &ClaimTable<TS>) -> (Vec<(SocketAddr, Range, Time)>, Vec<(Address, SocketAddr, Time)>) {
+    let claims = t.claims.iter().map(|e| (e.peer, e.claim, e.timeout)).collect();
+    let cache = t.cache.iter().map(|(a, v)| (*a, v.peer, v.timeout)).collect();
+    (claims, cache)
+}
